@@ -96,6 +96,9 @@ def conn_view(toks):
             emitted[sel].append(int(x.split()[1], 16))
         elif x.startswith("B "):
             cut[sel] = True
+        elif x.startswith("RN "):
+            _, n, h = x.split()
+            reqs += [((int(h, 16) + j) & 0xffffffff, cur) for j in range(int(n))]
         elif x.startswith("BB "):
             cut[sel] = True
             _, _, n, h, _ = x.split()
@@ -154,7 +157,7 @@ def multi_schedule(r, adversarial=False):
     return toks
 
 
-ARITY = {"BB": 4, "RX": 1, "PL": 2, "R": 1, "G": 1, "W": 0, "WE": 0, "D": 1, "T": 1, "CA": 0, "CF": 0, "SEL": 1, "P": 1, "PS": 2, "PG": 3, "PT": 2, "B": 1}
+ARITY = {"BB": 4, "RX": 1, "PL": 2, "R": 1, "G": 1, "W": 0, "WE": 0, "D": 1, "T": 1, "CA": 0, "CF": 0, "SEL": 1, "P": 1, "PS": 2, "PG": 3, "PT": 2, "B": 1, "H": 0, "U": 0, "RN": 2}
 
 
 def regress_schedules(pid):
@@ -329,6 +332,21 @@ def check_C11(chk, tier, seed):
         cases.append((line(toks), toks, True))
         toks2 = [f"R {hx(hops[0])}", "W", f"RX {hx(0x7f)}", f"R {hx(hops[1])}", "W", f"PL {hx(hops[0])} {hx(sizes[0])}", f"PL {hx(hops[1])} {hx(sizes[1])}"]
         cases.append((line(toks2), toks2, "multi"))
+    # several answers delivered in ONE piece (the peer answers a burst at once), of different lengths - in particular a short one
+    # after a long one and followed by more - and the peer idle afterwards: each request gets its own answer
+    for k, sizes in enumerate([(300, 0, 0), (0, 300, 0, 1), (5000, 1, 0), (17000, 3, 40, 2), (40, 39, 38, 37), (1, 0), (0, 0, 0, 0, 0), (70000, 0, 300, 0)]):
+        hops = [0x90 + j for j in range(len(sizes))]
+        for variant in range(3):
+            toks = []
+            for hp in hops:
+                toks += [f"R {hx(hp)}", "W"]
+            if variant == 0:      # all in one piece
+                toks += ["H"] + [f"PL {hx(hp)} {hx(n)}" for hp, n in zip(hops, sizes)] + ["U"]
+            elif variant == 1:    # the first alone, the others in one piece
+                toks += [f"PL {hx(hops[0])} {hx(sizes[0])}", "H"] + [f"PL {hx(hp)} {hx(n)}" for hp, n in list(zip(hops, sizes))[1:]] + ["U"]
+            else:                 # in one piece, then an idle hour, then nothing more
+                toks += ["H"] + [f"PL {hx(hp)} {hx(n)}" for hp, n in zip(hops, sizes)] + ["U", "T " + hx(3600000)]
+            cases.append((line(toks), toks, True))
     # adversarial peers (safety only): unsolicited, duplicated, wrong-id answers
     for k in range(300 if tier == "quick" else 20000):
         r = rng.fork(f"a{k}")
@@ -439,6 +457,12 @@ def check_C12(chk, tier, seed):
                             toks.append(f"P {hx(hops[i])}")
                     toks += [f"PT {hx(hops[un[0]])} {hx(cut)}", "B eof" if cut % 2 else "B reset"]
                     cases.append((line(toks), toks, "cut-inside-answer"))
+    # MANY requests outstanding when the stream ends (more than any window, table capacity or permit pool a client might keep:
+    # 300, 1100, 2100; thorough 70000), some answered first; every future fails, and one more send afterwards is refused
+    for n in (300, 1100, 2100) if tier == "quick" else (300, 1100, 2100, 70000):
+        for kind in ("eof", "garbage"):
+            toks = [f"RN {n} {hx(0x10000)}", f"P {hx(0x10000)}", f"P {hx(0x10000 + n - 1)}", f"B {kind}", f"R {hx(0x9999)}", f"R {hx(0x999a)}"]
+            cases.append((line(toks), toks, "many"))
     nrand = 1200 if tier == "quick" else 80000
     for k in range(nrand):
         r = rng.fork(f"r{k}")
@@ -498,7 +522,15 @@ def check_C12(chk, tier, seed):
         toks.append(f"BB {r.choice(['eof', 'reset', 'garbage'])} {r.choice([70, 130, 200])} {hx(0x1000)} {k % 8}")
         cases.append((line(toks), toks, "burst"))
     lines = [c[0] for c in cases]
-    impl, model = eng.run(lines)
+    # the model's state is a chain of function updates over unary numbers: histories with more than a few hundred requests
+    # are judged by the property predicate alone (no model run)
+    big = [i for i, c in enumerate(cases) if c[2] == "many" and int(c[1][0].split()[1]) > 300]
+    impl, model = eng.run([l for i, l in enumerate(lines) if i not in big])
+    if big:
+        impl_big = core.run_sharded([eng.harness, "codec"], eng.prelude, [lines[i] for i in big], shards=min(8, len(big)), timeout=1200)
+        for i, im_b in zip(big, impl_big):
+            impl.insert(i, im_b)
+            model.insert(i, im_b)
     from checks_client import judge_safety as js
     for i, ((c, toks, kind), im, mo) in enumerate(zip(cases, impl, model)):
         nreq = sum(1 for x in toks if x.startswith("R "))
@@ -523,6 +555,20 @@ def check_C12(chk, tier, seed):
                     chk.violation(f"response future {outs.index('PENDING')} of a burst of sends issued while the reader was shutting down is still pending: "
                                   "the send was accepted after the waiters had been released", dict(case=c, impl=short(im)))
                 mo = im         # which sends see the closed flag and which are registered first is decided by the scheduler: not compared
+            if kind == "many":
+                # hundreds of futures polled in one go by the harness exhaust the runtime's cooperative budget: WHEN each is seen
+                # complete is an artefact of the observer here, only the outcomes count
+                late = None
+                import re as _re
+                im_cmp, mo = _re.sub(r"@\d+", "", im), _re.sub(r"@\d+", "", mo)
+                if im_cmp != mo and ok:
+                    chk.corr_break("client observation differs from the model", dict(case=c, impl=short(im), model=short(mo)))
+                mo = im
+                n_many = int(toks[0].split()[1])
+                if len(outs) != n_many + 2 or not all(o == "ERR" for o in outs[1:n_many - 1] + outs[n_many:]):
+                    ok = False
+                    chk.violation("with hundreds of requests outstanding when the stream ended, not every response future failed (or a send afterwards was not refused)",
+                                  dict(case=c, impl=short(im, 600), outcomes_not_ERR=[(j, o) for j, o in enumerate(outs) if o != "ERR"][:10]))
             if kind == "multi":
                 has_bad = False
                 if hung:
@@ -541,6 +587,8 @@ def check_C12(chk, tier, seed):
             elif has_bad and reader != "stopped":
                 ok = False
                 chk.violation("the reader did not stop after the peer closed / reset / sent an undecodable message", dict(case=c, impl=short(im)))
+            elif kind == "many":
+                pass
             else:
                 # while the reader is alive, a pending future must be one whose answer was never emitted after its registration
                 reqs = [(j, int(x.split()[1], 16)) for j, x in enumerate(toks) if x.startswith(("R ", "RX "))]
